@@ -52,6 +52,15 @@ def cases(seed, tier):
         cfg = {}
         if P.get('children') and prng.random() < 0.5:
             cfg = {'engine': {'start_subworkflows_via_rpc': True}}
+        if i % 5 == 3:
+            # a with-items task with a concurrency limit: the next item is
+            # started by the scheduled completion job of the previous one
+            plain = [T for T in P['tasks'] if not T.get('workflow') and
+                     not T.get('policies')]
+            if plain:
+                T = prng.choice(plain)
+                T['with_items'] = 'i in <% [0, 1, 2] %>'
+                T['concurrency'] = prng.choice([1, 1, 2])
         outcomes = gdirect.gen_outcomes(prng, P, p_fail=0.2)
         if i % 4 == 1:
             # base history with an operator rerun: some root task without
@@ -632,8 +641,12 @@ def _db_retry_runs(c0, case, base, res, brng, shape):
     brng.shuffle(labels)
     other = sorted(set(other))
     brng.shuffle(other)
-    for label in labels[:3] + other[:2]:
-        k = brng.randint(1, 5)
+    pairs = [(label, brng.randint(1, 5)) for label in labels[:3] + other[:2]]
+    # the scheduled completion job of a with-items item (it starts the next
+    # item under a concurrency limit): every writing statement of it
+    wi = [l for l in other if '_scheduled_on_action_complete' in l][:2]
+    pairs += [(l, k_) for l in wi for k_ in range(1, 9)]
+    for label, k in pairs:
         st = {'n': 0, 'hit': None}
 
         bhook, bphases = _pause_plan(case, {})
@@ -689,6 +702,31 @@ def _db_retry_runs(c0, case, base, res, brng, shape):
         if not d and _counts(base.rows) != _counts(run.rows):
             d = 'row counts %s != %s' % (_counts(base.rows),
                                          _counts(run.rows))
+        # actions are dispatched after the commit: the attempt that was
+        # rolled back must not have dispatched anything (no action runs
+        # more often than in the run without the error, none runs for an
+        # action execution that does not exist)
+        def runs_of(r):
+            out = {}
+            for ev in r.world.rec.events:
+                if ev['kind'] == 'ACTION_RUN':
+                    out[ev['t']] = out.get(ev['t'], 0) + 1
+            return out
+        rb, rr = runs_of(base), runs_of(run)
+        more = {t: (rb.get(t, 0), n_) for t, n_ in rr.items()
+                if n_ > rb.get(t, 0)}
+        ghosts = [ev['action_ex_id'] for ev in run.world.rec.events
+                  if ev['kind'] == 'ACTION_RUN' and
+                  ev['action_ex_id'] not in run.rows['action']]
+        if (more and case['det']) or ghosts:
+            res['violations'].append({
+                'prop': 'C06', 'monitor': 'db-retry',
+                'mech': 'rolled-back-attempt-dispatched-an-action',
+                'db_retry': desc,
+                'msg': 'a deadlock at write statement %d of %s (handler '
+                       'retried by the engine): actions ran more often than '
+                       'without the error %s; runs for action executions '
+                       'that do not exist: %s' % (k, label, more, ghosts)})
         if d:
             res['violations'].append({
                 'prop': 'C06', 'monitor': 'db-retry',
